@@ -10,7 +10,7 @@ for d in seeded/*/; do
   [ -z "$prop" -o "$prop" = "None" ] && continue
   ( cd $R && git checkout -q -- . && (git apply --3way $OLDPWD/$d/patch.diff 2>/dev/null || git apply $OLDPWD/$d/patch.diff 2>/dev/null) && git reset -q ) || { echo "$id $prop APPLY-FAILED"; ( cd $R && git reset -q --hard && git checkout -q -- . ); continue; }
   for s in $SEEDS; do
-    VERIF_REPO=$R VERIF_SEED=$s timeout 1500 ./check $prop --tier quick > /tmp/matrix_$$.out 2>&1; rc=$?
+    VERIF_EVIDENCE_DIR=/tmp/wt/evidence_seed VERIF_REPO=$R VERIF_SEED=$s timeout 1500 ./check $prop --tier quick > /tmp/matrix_$$.out 2>&1; rc=$?
     nv=$(grep -c "^VIOLATION" /tmp/matrix_$$.out)
     echo "$id $prop seed=$s rc=$rc violations=$nv"
   done
